@@ -802,6 +802,388 @@ fn case_c12(seed: u64, idx: usize, cache: &TableCache, out: &mut String, st: &mu
     }
 }
 
+/// Mutates one field of a configuration (token type, pattern order, lookahead, polarity,
+/// transition, mode name).
+fn mutate_cfg(r: &mut Rng, base: &[ModeSpec]) -> Vec<ModeSpec> {
+    let mut c = base.to_vec();
+    let m = r.below(c.len());
+    // near-identical configuration whose 64-bit FxHash (polynomial: h = (h + w) * K) collides with
+    // the original: two consecutive hashed words (w1, w2) -> (w1 - 1, w2 + K)
+    if r.chance(25) {
+        for mode in c.iter_mut() {
+            if mode.transitions.len() >= 2 && mode.transitions[0].1 >= 1 {
+                const K: u64 = 0xf1357aea2e62a9c5;
+                mode.transitions[0].1 -= 1;
+                let t = (mode.transitions[1].0 as u64).wrapping_add(K) as usize;
+                if t > mode.transitions[0].0 && mode.transitions.iter().skip(2).all(|x| x.0 > t) {
+                    mode.transitions[1].0 = t;
+                    return c;
+                }
+                mode.transitions[0].1 += 1;
+            }
+        }
+    }
+    match r.below(7) {
+        0 => {
+            let p = r.below(c[m].patterns.len());
+            c[m].patterns[p].tid += 100;
+            c[m].transitions.retain(|_| false);
+        }
+        1 => {
+            if c[m].patterns.len() >= 2 {
+                c[m].patterns.swap(0, 1);
+            } else {
+                c[m].name.push('x');
+            }
+        }
+        2 => {
+            let p = r.below(c[m].patterns.len());
+            c[m].patterns[p].lookahead = match &c[m].patterns[p].lookahead {
+                Some(_) => None,
+                None => Some((true, "a".to_string())),
+            };
+        }
+        3 => {
+            let p = r.below(c[m].patterns.len());
+            c[m].patterns[p].lookahead = match &c[m].patterns[p].lookahead {
+                Some((pos, la)) => Some((!*pos, la.clone())),
+                None => Some((false, "b".to_string())),
+            };
+        }
+        4 => {
+            if c[m].transitions.is_empty() {
+                let t = c[m].patterns[0].tid;
+                c[m].transitions.push((t, 0));
+            } else {
+                c[m].transitions.pop();
+            }
+        }
+        5 => c[m].name.push('_'),
+        _ => {
+            let p = r.below(c[m].patterns.len());
+            c[m].patterns[p].pattern.push('a');
+        }
+    }
+    c
+}
+
+fn tokens_of(sc: &scnr::Scanner, input: &str) -> String {
+    match catch_unwind(AssertUnwindSafe(|| sc.find_iter(input).take(input.len() + 2).map(|m| real::fmt_tok(&m)).collect::<Vec<_>>().join(" "))) {
+        Ok(s) => s,
+        Err(_) => "panic".to_string(),
+    }
+}
+
+/// C13: sequences of cached builds of equal, near-identical, unrelated and failing configurations.
+fn case_c13(seed: u64, idx: usize, cache: &TableCache, out: &mut String, st: &mut Stats) {
+    let mut r = Rng::derive(seed, idx as u64);
+    let pc = ProgCfg { max_modes: 2, max_patterns: 4, lookahead: 30, nullable: false, transitions: true, big_tids: true };
+    let base = cfggen::gen_program(&mut r, &pc);
+    let other = cfggen::gen_program(&mut r, &pc);
+    let mut cfgs: Vec<Vec<ModeSpec>> = vec![base.clone(), other];
+    for _ in 0..4 {
+        let src = if r.chance(70) { base.clone() } else { cfgs[r.below(cfgs.len())].clone() };
+        cfgs.push(mutate_cfg(&mut r, &src));
+    }
+    // failing configurations: syntax error, unsupported feature
+    let mut bad1 = base.clone();
+    bad1[0].patterns[0].pattern = "[".to_string();
+    let mut bad2 = base.clone();
+    bad2[0].patterns[0].pattern = "a\\b".to_string();
+    cfgs.push(bad1);
+    cfgs.push(bad2);
+    // many distinct tiny configurations in the first case only (cache growth)
+    let n_tiny = if idx == 0 { 1300 } else { 0 };
+    let first_tiny = cfgs.len();
+    for i in 0..n_tiny {
+        cfgs.push(vec![ModeSpec {
+            name: "T".into(),
+            patterns: vec![PatSpec { pattern: format!("t{}", i), tid: i % 7, lookahead: None }],
+            transitions: vec![],
+        }]);
+    }
+    // configuration ids by structural equality of the real mode lists
+    let real_modes: Vec<Vec<scnr::ScannerMode>> = cfgs.iter().map(|c| cfggen::to_modes(c)).collect();
+    let mut canon: Vec<usize> = Vec::new();
+    for i in 0..cfgs.len() {
+        let mut id = i;
+        for j in 0..i.min(first_tiny) {
+            if real_modes[j] == real_modes[i] {
+                id = canon[j];
+                break;
+            }
+        }
+        canon.push(id);
+    }
+    st.cases += 1;
+    let mut comps = CompIds::default();
+    let mut body = String::new();
+    let _ = writeln!(body, "case {}\nexpect case {}\n# base: {}", idx, idx, describe(&base).replace('\n', "\\n"));
+    body.push_str("world\n");
+    // compile table (uncached builds); the dumps themselves are not needed by the model here
+    let mut uncached: Vec<Option<scnr::Scanner>> = Vec::new();
+    for (ci, modes) in real_modes.iter().enumerate() {
+        let r_ = catch_unwind(AssertUnwindSafe(|| ScannerBuilder::new().add_scanner_modes(modes).build_uncached()));
+        match r_ {
+            Ok(Ok(sc)) => {
+                let id = comps.id_of(&sc);
+                if canon[ci] == ci {
+                    let _ = writeln!(body, "compile {} {}", ci, id);
+                }
+                uncached.push(Some(sc));
+            }
+            _ => {
+                if canon[ci] == ci {
+                    let _ = writeln!(body, "compile {} err", ci);
+                }
+                uncached.push(None);
+            }
+        }
+    }
+    // inputs for the behavioural comparison
+    let inputs: Vec<String> = match &uncached[0] {
+        Some(sc) => {
+            let d = sc.verif_dump();
+            let t = cache.tables(sc, &d);
+            (0..3).map(|_| cfggen::gen_input(&mut r, &d, &t, 6)).collect()
+        }
+        None => vec!["ab".to_string()],
+    };
+    // the build sequence
+    let mut seq: Vec<usize> = Vec::new();
+    for _ in 0..r.range(10, 30) {
+        seq.push(r.below(first_tiny));
+    }
+    if n_tiny > 0 {
+        seq.extend(first_tiny..cfgs.len());
+        // failing builds after the cache has grown, twice each, then earlier ones again
+        seq.extend([first_tiny - 2, first_tiny - 2, first_tiny - 1, first_tiny - 1, 0, 2, first_tiny, first_tiny + 5]);
+    }
+    for (step, ci) in seq.iter().enumerate() {
+        let modes = &real_modes[*ci];
+        let built = catch_unwind(AssertUnwindSafe(|| ScannerBuilder::new().add_scanner_modes(modes).build()));
+        let _ = writeln!(body, "wbuild {} {}", step % 8, canon[*ci]);
+        *st.ops.entry("build".into()).or_default() += 1;
+        match built {
+            Err(_) => body.push_str("expect panic\n"),
+            Ok(Err(_)) => {
+                body.push_str("expect builderr\n");
+                st.count("failing_builds", 1);
+                if uncached[*ci].is_some() {
+                    body.push_str("oracle FAIL build returned an error but build_uncached of the same modes succeeds\nexpect oracle\n");
+                }
+            }
+            Ok(Ok(sc)) => {
+                let _ = writeln!(body, "expect built {}", comps.id_of(&sc));
+                // behaviour: identical to the uncached scanner on the inputs
+                match &uncached[*ci] {
+                    None => body.push_str("oracle FAIL build returned a scanner but build_uncached of the same modes fails\nexpect oracle\n"),
+                    Some(u) => {
+                        let mut bad = None;
+                        for inp in &inputs {
+                            let (a, b) = (tokens_of(&sc, inp), tokens_of(u, inp));
+                            if a != b {
+                                bad = Some(format!("cached scanner of configuration {} yields [{}] but the uncached one [{}] on {:?}", ci, a, b, inp));
+                                break;
+                            }
+                        }
+                        match bad {
+                            None => body.push_str("oracle ok\nexpect oracle\n"),
+                            Some(m) => {
+                                let _ = writeln!(body, "oracle FAIL {}\nexpect oracle", m.replace('\n', "\\n"));
+                            }
+                        }
+                    }
+                }
+            }
+        }
+    }
+    st.count("distinct_configurations", canon.iter().enumerate().filter(|(i, c)| *i == **c).count());
+    out.push_str(&body);
+    if st.samples.len() < 2 {
+        st.samples.push(format!("{} builds over {} configurations (base, 4 one-field mutations, unrelated, 2 failing{}); base {}", seq.len(), cfgs.len(), if n_tiny > 0 { ", 1300 tiny" } else { "" }, describe(&base)));
+    }
+}
+
+fn assert_send_sync<T: Send + Sync>() {}
+
+/// C14: N threads build through the shared cache (simultaneous misses on a slow configuration,
+/// hits, failing builds, private configurations) and scan with private scanners and one shared
+/// scanner. Every thread's program is emitted as its own case: the Lean world runs it alone.
+fn c14_round(seed: u64, round: usize, cache: &TableCache, out: &mut String, st: &mut Stats) -> bool {
+    // compile-time part of the property
+    assert_send_sync::<scnr::Scanner>();
+    assert_send_sync::<scnr::ScannerBuilder>();
+    assert_send_sync::<scnr::ScannerMode>();
+    let n_threads = 8usize;
+    let mut r = Rng::derive(seed, round as u64);
+    let pc = ProgCfg { max_modes: 2, max_patterns: 4, lookahead: 20, nullable: false, transitions: true, big_tids: false };
+    let a = cfggen::gen_program(&mut r, &pc);
+    // a configuration nobody has built yet whose compilation takes a while
+    let slow = vec![ModeSpec {
+        name: format!("SLOW{}_{}", seed, round),
+        patterns: vec![
+            PatSpec { pattern: format!("[a-c]{{{}}}x", 250 + r.below(100)), tid: 1, lookahead: None },
+            PatSpec { pattern: "[a-c]+".into(), tid: 2, lookahead: None },
+        ],
+        transitions: vec![],
+    }];
+    let mut bad = a.clone();
+    bad[0].patterns[0].pattern = "(".to_string();
+    let mut cfgs: Vec<Vec<ModeSpec>> = vec![a.clone(), slow, bad];
+    for t in 0..n_threads {
+        cfgs.push(vec![ModeSpec {
+            name: format!("P{}_{}_{}", seed, round, t),
+            patterns: vec![PatSpec { pattern: format!("p{}|[a-c]", t), tid: t, lookahead: None }],
+            transitions: vec![],
+        }]);
+    }
+    let mut comps = CompIds::default();
+    let mut prologue = String::new();
+    prologue.push_str("world\n");
+    let ids = write_comps(&mut prologue, &cfgs, cache, &mut comps, true);
+    if ids[0].is_none() {
+        return true;
+    }
+    let shared = std::sync::Arc::new(ScannerBuilder::new().add_scanner_modes(&cfggen::to_modes(&a)).build_uncached().unwrap());
+    let dump_a = shared.verif_dump();
+    let tables_a = cache.tables(&shared, &dump_a);
+    let mut inputs: Vec<String> = (0..3).map(|_| cfggen::gen_input(&mut r, &dump_a, &tables_a, 7)).collect();
+    inputs.push("abcabcx abc p3 cab".to_string());
+    let comps = std::sync::Arc::new(std::sync::Mutex::new(comps));
+    let barrier = std::sync::Arc::new(std::sync::Barrier::new(n_threads));
+    let (tx, rx) = std::sync::mpsc::channel::<(usize, String)>();
+    // phase 1 = the simultaneous first build only; nobody continues before all are through it
+    let (tx1, rx1) = std::sync::mpsc::channel::<usize>();
+    let go2 = std::sync::Arc::new(std::sync::atomic::AtomicBool::new(false));
+    for t in 0..n_threads {
+        let tx1 = tx1.clone();
+        let go2 = go2.clone();
+        let mut tr = Rng::derive(seed ^ 0x5151, (round * 64 + t) as u64);
+        let cfgs = cfgs.clone();
+        let inputs = inputs.clone();
+        let shared = shared.clone();
+        let comps = comps.clone();
+        let barrier = barrier.clone();
+        let tx = tx.clone();
+        std::thread::spawn(move || {
+            let mut w = RealWorld::new(&cfgs, &inputs);
+            w.shared = Some(shared);
+            let mut ops: Vec<WOp> = vec![
+                WOp::Build { s: 0, cfg: 1 },
+                WOp::FindIter { s: 0, k: 0, input: 3 },
+                WOp::Next { k: 0 },
+                WOp::Build { s: 1, cfg: 0 },
+                WOp::Build { s: 2, cfg: 2 },
+                WOp::Build { s: 3, cfg: 3 + t },
+                WOp::FindIter { s: 99, k: 1, input: tr.below(3) },
+                WOp::FindIter { s: 1, k: 2, input: tr.below(3) },
+                WOp::FindIter { s: 3, k: 3, input: 3 },
+            ];
+            for _ in 0..tr.range(20, 60) {
+                ops.push(match tr.below(10) {
+                    0..=5 => WOp::Next { k: tr.below(4) },
+                    6 => WOp::Peek { k: tr.below(4), n: tr.below(3) },
+                    7 => WOp::FindIter { s: *tr.pick(&[0, 1, 3, 99]), k: tr.below(4), input: tr.below(4) },
+                    8 => WOp::Build { s: 1, cfg: *tr.pick(&[0, 1, 2]) },
+                    _ => WOp::ICurMode { k: tr.below(4) },
+                });
+            }
+            let mut body = String::new();
+            barrier.wait();
+            for (opi, op) in ops.iter().enumerate() {
+                if opi == 1 {
+                    let _ = tx1.send(t);
+                    while !go2.load(std::sync::atomic::Ordering::SeqCst) {
+                        std::thread::sleep(std::time::Duration::from_millis(1));
+                    }
+                }
+                let (line, res) = {
+                    // the id bookkeeping of the harness is serialised; the calls into scnr are not
+                    match op {
+                        WOp::Build { .. } | WOp::BuildU { .. } => {
+                            let (line, res) = w.exec_build_unlocked(op);
+                            match res {
+                                Ok(Some(sc_dump_key)) => {
+                                    let mut c = comps.lock().unwrap();
+                                    let n = c.ids.len();
+                                    let id = *c.ids.entry(sc_dump_key).or_insert(n);
+                                    (line, Some(format!("built {}", id)))
+                                }
+                                Ok(None) => (line, Some("builderr".to_string())),
+                                Err(_) => (line, Some("panic".to_string())),
+                            }
+                        }
+                        _ => {
+                            let mut dummy = CompIds::default();
+                            w.exec(op, &mut dummy)
+                        }
+                    }
+                };
+                world::emit(&mut body, &line, &res);
+            }
+            let _ = tx.send((t, body));
+        });
+    }
+    drop(tx);
+    drop(tx1);
+    let mut through: Vec<bool> = vec![false; n_threads];
+    let d1 = std::time::Instant::now() + std::time::Duration::from_secs(30);
+    let mut n1 = 0;
+    while n1 < n_threads {
+        match rx1.recv_timeout(d1.saturating_duration_since(std::time::Instant::now())) {
+            Ok(t) => {
+                through[t] = true;
+                n1 += 1;
+            }
+            Err(_) => break,
+        }
+    }
+    if n1 < n_threads {
+        let stuck: Vec<usize> = (0..n_threads).filter(|t| !through[*t]).collect();
+        st.cases += 1;
+        let _ = writeln!(out, "case {}
+expect case {}
+# round {}", round * n_threads, round * n_threads, round);
+        let _ = writeln!(out, "oracle FAIL threads {:?} of {} did not return from a simultaneous ScannerBuilder::build of the same uncached modes within 30 s (deadlock)
+expect oracle", stuck, n_threads);
+        return false;
+    }
+    go2.store(true, std::sync::atomic::Ordering::SeqCst);
+    let mut bodies: Vec<Option<String>> = vec![None; n_threads];
+    let deadline = std::time::Instant::now() + std::time::Duration::from_secs(90);
+    let mut done = 0;
+    while done < n_threads {
+        let left = deadline.saturating_duration_since(std::time::Instant::now());
+        match rx.recv_timeout(left) {
+            Ok((t, b)) => {
+                bodies[t] = Some(b);
+                done += 1;
+            }
+            Err(_) => break,
+        }
+    }
+    let shared_id = ids[0].unwrap();
+    for t in 0..n_threads {
+        st.cases += 1;
+        let idx = round * n_threads + t;
+        let _ = writeln!(out, "case {}\nexpect case {}\n# round {} thread {}", idx, idx, round, t);
+        out.push_str(&prologue);
+        // the shared scanner (built before the threads started) in slot 99
+        let _ = writeln!(out, "wbuildu 99 0\nexpect built {}", shared_id);
+        match &bodies[t] {
+            Some(b) => {
+                out.push_str(b);
+                *st.ops.entry("thread_programs".into()).or_default() += 1;
+            }
+            None => {
+                let _ = writeln!(out, "oracle FAIL thread {} of round {} did not finish within 90 s (deadlock or livelock in build/scan)\nexpect oracle", t, round);
+            }
+        }
+    }
+    done == n_threads
+}
+
 fn main() {
     // silence panic messages of caught panics
     std::panic::set_hook(Box::new(|_| {}));
@@ -811,6 +1193,29 @@ fn main() {
     let threads = args.threads.max(1);
     let n = args.n;
     let mut chunks: Vec<(String, Stats)> = Vec::new();
+    if args.suite == "C14" {
+        let mut o = String::new();
+        let mut stt = Stats::default();
+        let mut all_done = true;
+        for round in 0..n {
+            if !c14_round(args.seed, round, &cache, &mut o, &mut stt) {
+                all_done = false;
+                break;
+            }
+        }
+        stt.count("threads_per_round", 8);
+        stt.samples.push("8 threads: build(slow fresh cfg) simultaneously, hits, failing builds, private cfgs, scans on private and one shared scanner".into());
+        std::fs::create_dir_all(&args.out).unwrap();
+        std::fs::write(format!("{}/ops.in", args.out), &o).unwrap();
+        let j = serde_json::json!({
+            "suite": args.suite, "seed": args.seed, "cases": stt.cases, "build_err": 0, "build_panic": 0,
+            "inputs": 0, "ops": stt.ops, "counters": stt.counters, "samples": stt.samples,
+            "class_tables_enumerated": *cache.enumerated.lock().unwrap(),
+        });
+        std::fs::write(format!("{}/stats.json", args.out), serde_json::to_string_pretty(&j).unwrap()).unwrap();
+        // stuck threads cannot be joined
+        std::process::exit(if all_done { 0 } else { 0 });
+    }
     std::thread::scope(|s| {
         let mut handles = Vec::new();
         for t in 0..threads {
@@ -829,6 +1234,7 @@ fn main() {
                         "C03" => case_c03(seed, idx, &cache, &mut out, &mut st),
                         "C08" => case_c08(seed, idx, &rcache, &mut out, &mut st),
                         "C12" => case_c12(seed, idx, &cache, &mut out, &mut st),
+                        "C13" => case_c13(seed, idx, &cache, &mut out, &mut st),
                         _ => case_iter(seed, idx, &suite, &cache, &mut out, &mut st),
                     }
                     idx += threads;
